@@ -61,6 +61,8 @@ def check_request(R, req, host, want):
     if not ok:
         R.fail("C09.host-header", f"{desc}: Host value {hostval!r} for peer {host!r}", family="v6" if ":" in host else "v4")
     if want is None:
+        if req.method == "GET" and req.target.startswith("/characteristics") and not READ_URL.match(req.target):
+            R.fail("C09.read-url", f"{desc}: read URL does not match /characteristics?id=a.i(,a.i)*")
         return
     if req.method != want["method"]:
         R.fail("C09.request-line", f"{desc}: method, expected {want['method']}")
@@ -162,7 +164,8 @@ def run_case(case, R):
                             shared.update(ids)
                             arg = shared
                         else:
-                            arg = set(ids) if op[2] == "set" else (tuple(ids) if op[2] == "tuple" else ids)
+                            arg = (set(ids) if op[2] == "set" else tuple(ids) if op[2] == "tuple" else (x for x in ids) if op[2] == "gen" else iter(ids) if op[2] == "iter"
+                                   else dict.fromkeys(ids).keys() if op[2] == "keys" else ids)        # any Iterable[tuple[int, int]], also one that can be walked once only
                         expected.append({"method": "GET", "ids": sorted(set(ids)), "no_body": True})
                         await p.get_characteristics(arg)
                     elif name == "put":
@@ -219,6 +222,10 @@ def run_case(case, R):
                         await asyncio.sleep(3)
                         await vtime.settle(loop)
                         expected.append("reconnect")
+                    elif name == "raw_request":
+                        # request() is the connection's entry point; it canonicalises the method
+                        expected.append({"method": op[1].upper(), "target": op[2], "no_body": True})
+                        await p.connection.request(method=op[1], target=op[2])
                     elif name == "raw_get":
                         expected.append({"method": "GET", "target": op[1], "no_body": True})
                         await p.connection.get(op[1])
@@ -286,7 +293,7 @@ IDSETS = st.lists(st.sampled_from(ALL_IDS + [(3, 1), (1, 65535), (17, 300)]), mi
 @st.composite
 def op(draw):
     name = draw(st.sampled_from(["move", "list", "get", "get", "put", "put", "subscribe", "unsubscribe", "identify", "list_pairings", "add_pairing",
-                                 "remove_pairing", "image", "raw_get", "raw_put_json", "raw_post_json", "raw_post", "raw_put"]))
+                                 "remove_pairing", "image", "raw_get", "raw_put_json", "raw_post_json", "raw_post", "raw_put", "raw_request"]))
     if name == "move" and draw(st.booleans()):
         subs = []
         for j in range(draw(st.integers(3, 5))):
@@ -304,7 +311,7 @@ def op(draw):
                 subs.append([k_, [[a, i, draw(st.sampled_from([True, False, 1, 0]))] for a, i in ids_]])
         return ["par", subs]
     if name == "get":
-        return [name, draw(IDSETS), draw(st.sampled_from(["list", "set", "shared", "shared", "tuple"]))]
+        return [name, draw(IDSETS), draw(st.sampled_from(["list", "set", "shared", "shared", "tuple", "gen", "iter", "keys"]))]
     if name == "put":
         ids = draw(st.lists(st.sampled_from(WRITABLE), min_size=1, max_size=4, unique=True))
         return [name, [[a, i, draw(JSON_VALUES)] for a, i in ids]]
@@ -316,6 +323,8 @@ def op(draw):
         return [name, draw(st.text(alphabet="abcdef0123456789-", min_size=1, max_size=36))]
     if name == "image":
         return [name, draw(st.integers(1, 5)), draw(st.integers(1, 4000)), draw(st.integers(1, 4000))]
+    if name == "raw_request":
+        return [name, draw(st.sampled_from(["get", "Get", "GET", "post", "Put", "delete", "OPTIONS"])), draw(TARGETS)]
     if name == "raw_get":
         return [name, draw(TARGETS)]
     if name in ("raw_put_json", "raw_post_json"):
@@ -340,6 +349,8 @@ def enum_fixed(tier):
     for hk in ("v4", "v6scoped"):
         yield {"host": hk, "k": 5, "ops": [["par", [["raw_get", "/x/1"], ["raw_put_json", "/x/2", {"a": 1}], ["raw_post", "/x/3", b"\x01\x02"], ["raw_get", "/x/4"]]],
                                            ["par", [["get", [[1, 9]]], ["put", [[1, 10, 5]]], ["get", [[1, 9], [2, 10]]], ["put", [[1, 9, True]]]]], ["list"]]}
+    yield {"host": "v4", "k": 6, "ops": [["get", [[1, 9], [1, 10]], "gen"], ["get", [[2, 10]], "iter"], ["get", [[1, 9], [2, 9], [1, 9]], "keys"], ["raw_request", "get", "/x/1"],
+                                         ["raw_request", "Post", "/x/2"], ["raw_request", "PUT", "/x/3"], ["raw_request", "delete", "/x/4"]]}
     yield {"host": "v6", "k": 4, "ops": [["get", [[1, 9], [1, 10]], "shared"], ["get", [[1, 9], [1, 10], [2, 10]], "shared"], ["get", [[1, 9]], "shared"],
                                          ["get", [[1, 9]], "tuple"], ["get", [[2, 9], [1, 9]], "shared"]]}
     yield {"host": "v4", "k": 3, "ops": [["put", [[1, 9, 2**64]]], ["put", [[1, 10, [1, {"a": -2**63 - 1}]]]], ["raw_put_json", "/x", {"n": 10**30}], ["raw_post_json", "/x", [2**64 + 1]]]}
